@@ -738,6 +738,9 @@ pub fn run(args: &Args, prop: &str) -> SubResult {
             if prop == "C13" && !thorough && (wi > 0 || f.1) {
                 continue;
             }
+            if prop == "C13" && thorough && wi >= 9 {
+                continue;
+            }
             cases.push((*w, f));
         }
     }
